@@ -33,6 +33,7 @@ SHARDS = {"quick": 4, "thorough": 16}
 def setup(ctx):
     MM.prepare(ctx)
     ctx.diag = {}
+    ctx.c15_kept = []
     M, single = MM.classes()
     import dep_logic.markers.multi as multi
     import dep_logic.markers.union as union
@@ -57,6 +58,8 @@ def _run_tree(ctx):
         if not MM.is_marker(v):
             return
         MM.normal_form_check(ctx, PROP, "boundary:" + t[0], v, origin=MW.tree_text(t)[:400])
+        if len(ctx.c15_kept) < 500 and isinstance(v, (M.MultiMarker, M.MarkerUnion)) and ctx.cases % 7 == 0:
+            ctx.c15_kept.append((v, repr(v), MW.tree_text(t)[:300]))
         ctx.shape("result:" + type(v).__name__)
         if isinstance(v, (M.MultiMarker, M.MarkerUnion)):
             ctx.nontrivial(repr(v))
@@ -74,8 +77,24 @@ def _run_tree(ctx):
     return run_tree
 
 
+def _recheck_kept(ctx):
+    """Results handed out earlier are looked at again after everything else ran: later operations must not have
+    changed them (shared child tuples / value sets)."""
+    from ..monitor import bump, violation
+
+    for v, first, origin in ctx.c15_kept:
+        bump("retained-result")
+        now = repr(v)
+        if now != first or MM.nf_defect(v) is not None and "with 1 child" not in (MM.nf_defect(v) or ""):
+            if now != first:
+                violation(PROP, "retained-result", "a result handed out earlier was changed by later operations",
+                          {"first": first[:300], "now": now[:300], "origin": origin, "group": "mutation"})
+
+
 def run(ctx):
+    ctx.c15_kept = []
     run_trees(ctx, _run_tree(ctx), n_random=1500 if ctx.tier == "quick" else 30000, max_atoms=7 if ctx.tier == "quick" else 9)
+    _recheck_kept(ctx)
 
 
 def replay(ctx, case):
